@@ -1195,6 +1195,30 @@ DECIMAL = {'decimal': True,
            'buffer_delay': [0, 0.1, 0.3, 0.7, 1.1, 2.2, 1 / 3]}
 
 
+def generate_scrap_lots(seed, tie='prng'):
+    """Lots are taken apart by a PartBatcher and inspected one unit at a time by the station right behind it; when the
+    inspector receives a bad one (every k-th) it scraps the rest of the lot that part came from, from its receive
+    callback, i.e. while the batcher is handing the part over (`Batch.parts` "can be modified directly").  Everything
+    that was not scrapped still comes through, in order, and later lots are still accepted."""
+    rng = random.Random(core.stable_int('scraplots', seed))
+    sizes = [rng.choice([2, 3, 4, 5, 6]) for _ in range(rng.choice([1, 2, 3]))]
+    ct = rng.choice([0.5, 1, 2])
+    items = [{'id': 'S1', 'kind': 'source', 'ct': ct, 'budget': rng.choice([None, None, 6, 12]), 'values': [1, 2.5],
+              'qualities': [1], 'batch': sizes},
+             {'id': 'T2', 'kind': 'batcher', 'up': ['S1'], 'size': rng.choice([None, None, None, 2, 3]),
+              'lot_seen': True},
+             {'id': 'H3', 'kind': 'handler', 'up': ['T2'], 'ct': rng.choice([0.125, 0.25, 0.5, 0]), 'res': None,
+              'scrap': {'batcher': 'T2', 'every': rng.choice([2, 3, 5, 7])}}]
+    prev = 'H3'
+    if rng.random() < 0.4:
+        items.append({'id': 'B4', 'kind': 'buffer', 'up': [prev], 'cap': rng.choice([2, 4, None]),
+                      'delay': rng.choice([0, 0.5])})
+        prev = 'B4'
+    items.append({'id': 'K6', 'kind': 'sink', 'up': [prev], 'ct': rng.choice([0, 0, 0.5]), 'collect': True})
+    return {'resources': {}, 'items': items, 'horizon': [float(rng.choice([20, 30, 40]))], 'tie': tie, 'seed': seed,
+            'max_events': 20000, 'script': [], 'profile': 'scrap_lots'}
+
+
 def generate_scratch_batches(seed, tie='prng'):
     """A source whose generator builds every Batch in one scratch list, feeding a PartBatcher that unpacks the
     whole Batch at once (so the re-use is legal), then a buffer where the re-packed batches wait."""
